@@ -1845,3 +1845,58 @@ Proof.
   destruct (faithful D ST ns init H1 H2 H3 H4 H5 nodes _ st' c a u _ _ _ HR' Hx' Hd Hf') as [enc [p' [E1 [E2 _]]]].
   fold nd in Henc. rewrite Henc in E1. inversion E1 as [[Ee Ep]]. rewrite Ee. exact E2.
 Qed.
+
+(* ---------------------------------------------------------------------------------- *)
+(* the theorems restated with the known-finding class F17 as the excluded case           *)
+(* ---------------------------------------------------------------------------------- *)
+
+Lemma not_known_class ext uc : ~ KnownClass ext uc -> ext = true \/ uc = false.
+Proof. unfold KnownClass. destruct ext, uc; intros H; try (left; reflexivity); try (right; reflexivity). exfalso. apply H. split; reflexivity. Qed.
+
+Lemma known_classb_spec ext uc : known_classb ext uc = true <-> KnownClass ext uc.
+Proof. unfold known_classb, KnownClass. destruct ext, uc; simpl; split; intros H; try discriminate H; try (destruct H; discriminate); auto. Qed.
+
+Lemma faithful_outside_class (D : schema) (ST : nat -> stmt) (ns : nat) (init : nat -> meta) :
+  (forall s v v', mid_of D s v = mid_of D s v' -> cols_of D s v = cols_of D s v') ->
+  (forall s v, mid_of D s v <> []) ->
+  (forall s s', s_id (ST s) = s_id (ST s') -> s = s') ->
+  (forall s s', s_text (ST s) = s_text (ST s') -> s = s') ->
+  (forall s, meta_ok D s (init s)) ->
+  forall nodes ls st c a u pg nr cl,
+  srun D ST ns (sinit init nodes) ls = Some st ->
+  let k := g_calls (s_g st) c in
+  k_x k = Some a -> k_st k = CS_done (O_rows u pg nr cl) ->
+  ~ KnownClass (k_ext k) (xa_use_cached a) ->
+  exists enc p, s_enc st c = Some (enc, p) /\ m_cols u = enc /\
+                pg = p_paging p /\ nr = p_nrows p /\ cl = p_cells p.
+Proof.
+  intros H1 H2 H3 H4 H5 nodes ls st c a u pg nr cl HR k Hx Hd HK.
+  eapply faithful; try eassumption. now apply not_known_class.
+Qed.
+
+Lemma recovers_outside_class (D : schema) (ST : nat -> stmt) (ns : nat) (init : nat -> meta) :
+  (forall s v v', mid_of D s v = mid_of D s v' -> cols_of D s v = cols_of D s v') ->
+  (forall s v, mid_of D s v <> []) ->
+  (forall s s', s_id (ST s) = s_id (ST s') -> s = s') ->
+  (forall s s', s_text (ST s) = s_text (ST s') -> s = s') ->
+  (forall s, meta_ok D s (init s)) ->
+  forall nodes ls st c a m s p0 p1 p,
+  srun D ST ns (sinit init nodes) ls = Some st ->
+  let nd := s_nodes st (s_route st c) in
+  let k := g_calls (s_g st) c in
+  stmt_of_id ST ns (s_id (ST s)) = Some s -> stmt_of_text ST ns (s_text (ST s)) = Some s ->
+  sid D s 0 = s_id (ST s) ->
+  k_x k = Some a -> xa_stmt a = s -> k_st k = CS_exec1 a m ->
+  s_out st c = Some (Q_execute (mk_exec_frame (ST s) (k_ext k) a m)) -> s_inbox st c = None ->
+  k_ext k = n_ext nd ->
+  n_prep nd s = false -> n_salt nd s = 0 -> cols_of D s (n_ver nd s) <> [] ->
+  exists st' u,
+    srun D ST ns st [SL_serve c p0; SL_recv c; SL_serve c p1; SL_recv c; SL_tick c; SL_serve c p; SL_recv c] = Some st' /\
+    k_st (g_calls (s_g st') c) = CS_done (O_rows u (p_paging p) (p_nrows p) (p_cells p)) /\
+    (~ KnownClass (k_ext k) (xa_use_cached a) -> m_cols u = cols_of D s (n_ver nd s)).
+Proof.
+  intros H1 H2 H3 H4 H5 nodes ls st c a m s p0 p1 p HR nd k Hid Htx Hsid Hx Hs Hst Hout Hin Hext Hprep Hsalt Hcols.
+  destruct (recovers_faithful D ST ns init H1 H2 H3 H4 H5 nodes ls st c a m s p0 p1 p HR Hid Htx Hsid Hx Hs Hst Hout Hin Hext Hprep Hsalt Hcols)
+    as [st' [u [A [B C]]]].
+  exists st', u. split; [exact A|]. split; [exact B|]. intros HK. apply C. now apply not_known_class.
+Qed.
